@@ -33,6 +33,10 @@ type Bus struct {
 	Async    bool          // Publish returns once the message is queued
 	MinDelay time.Duration // delivery latency range
 	MaxDelay time.Duration
+	// AckMax > 0 (synchronous mode): Publish returns up to AckMax after the
+	// message was handed to the recipient - the sender learns late that its
+	// message is out (a slow link layer), while the recipient already acts on it
+	AckMax time.Duration
 	DropP    float64 // relaxed configurations only
 	DupP     float64
 	// Tap sees every envelope at publish time (after re-serialisation).
@@ -260,6 +264,9 @@ func (b *Bus) Publish(ctx context.Context, e *wire.Envelope) error {
 	select {
 	case <-t.C:
 		deliver(e2, "")
+		if b.AckMax > 0 {
+			time.Sleep(b.S.Delay("ack:"+key, 0, b.AckMax))
+		}
 		return nil
 	case <-ctx.Done():
 		b.S.Event(from, "send-timeout", desc)
